@@ -8,7 +8,9 @@
 // forwarder next to the victim (it re-signs its own outer record with its real
 // key) or a wire attacker - and delivered to a real victim router; thorough
 // also flips every byte of body, origin signature and appendix. Stage T:
-// seeded forgery campaigns (chains up to 6 / 20) judged by GossipAuth_Trace.
+// seeded forgery campaigns (chains up to 6 / 20) judged by GossipAuth_Trace; stage
+// T-concurrent (concurrent.go): the forged announcement is handled while genuine ones
+// occupy the victim's other router workers.
 package main
 
 import (
@@ -353,6 +355,18 @@ func (s *scene) forge(a act, rng *rand.Rand, off int) (data []byte, from *world.
 		}
 		other := decodeChain(src[layout(src).apxFrom:])
 		return withAppendix(fa, s.ownRecord(fa, under(a.Depth, other[a.Depth-1].raw), rng)), from, ""
+	case "splicechain", "splicebelow":
+		// a WHOLE foreign chain: every record below the top is genuine - for another announcement (the other origin's, or,
+		// against a victim that has seen nothing yet, sometimes the same origin's newer one)
+		src, which := s.fc, "the other origin's announcement"
+		if !a.Seen && rng.Intn(3) == 0 {
+			src, which = s.fb, "the same origin's newer announcement"
+		}
+		other := decodeChain(src[layout(src).apxFrom:])
+		if a.Op == "splicechain" {
+			return withAppendix(fa, src[layout(src).apxFrom:]), from, "the whole chain signed for " + which
+		}
+		return withAppendix(fa, s.ownRecord(fa, other[0].att.NextAttachment, rng)), from, "own fresh record over the records 2.. signed for " + which
 	case "reattribute":
 		pub := s.x.ID.PublicAddress
 		raw := reencode(chain[a.Depth-1], chain[a.Depth-1].att.NextAttachment, &pub)
@@ -527,7 +541,7 @@ func runCase(c *vf.Ctx, L int, a act, rng *rand.Rand, off int) (result, string, 
 		if L > 0 {
 			gfrom = s.r1
 		}
-		if a.Op == "spliceorigin" {
+		if a.Op == "spliceorigin" || a.Op == "splicechain" || a.Op == "splicebelow" {
 			// the announcement the record is taken FROM has been processed (and its records verified) by the victim
 			_, _ = s.ms.W.DeliverRaw(gfrom, s.v, s.fc)
 			note += " (after the other origin's genuine announcement, which carries the record, was processed)"
@@ -768,7 +782,7 @@ func deepCase(c *vf.Ctx, total, tamper int, rng *rand.Rand) map[string]any {
 func main() { vf.Main("C08", "model_checking", run) }
 
 func run(c *vf.Ctx) {
-	c.Rule("M: TLC enumerates 22 operators x depth x chain length 0..4 (x delivering peer for handover: a genuine suffix of the chain handed over by the origin / an inner forwarder / an uninvolved peer over a link of its own to the victim) and checks the code's verification steps against the property-level accept rule. R: every case applied to real announcement bytes emitted by real routers (chains 0..4; the adversary is the real forwarder next to the victim re-signing its own record with its real key, or a wire attacker), 3 random byte/bit choices per flip case (thorough: every byte of body, origin signature and appendix of a 3-hop announcement, 2 bits each). T: seeded campaigns on chains up to 6 (thorough 20), and a handover campaign (chains 1..6, victims with extra links to the origin and to inner forwarders). distinct = distinct (operator, depth, real chain length, byte offset)")
+	c.Rule("M: TLC enumerates 24 operators x depth x chain length 0..4 (x delivering peer for handover: a genuine suffix of the chain handed over by the origin / an inner forwarder / an uninvolved peer over a link of its own to the victim) and checks the code's verification steps against the property-level accept rule. R: every case applied to real announcement bytes emitted by real routers (chains 0..4; the adversary is the real forwarder next to the victim re-signing its own record with its real key, or a wire attacker), 3 random byte/bit choices per flip case (thorough: every byte of body, origin signature and appendix of a 3-hop announcement, 2 bits each). T: seeded campaigns on chains up to 6 (thorough 20), and a handover campaign (chains 1..6, victims with extra links to the origin and to inner forwarders); T-concurrent: batches of 2..6 announcements (one forged: a whole chain signed for another announcement, the forwarder's own record over one, flips, strip, wrong peer) handled by the victim's real router workers at the same moment, arrival offsets / storage slowness / what the victim knows beforehand from the PRNG, the victim's forwarded copies given to the next router. distinct = distinct (operator, depth, real chain length, byte offset)")
 	c.Assume("Ed25519 unforgeable (also tested by the flips)", "the adversary holds only the key of the forwarder adjacent to the victim")
 
 	mc, err := c.TLC("GossipAuth", "GossipAuth_MC.cfg", vf.TLCOpts{Workers: 1, Coverage: true, Timeout: 5 * time.Minute})
@@ -943,6 +957,8 @@ func run(c *vf.Ctx) {
 	c.Stage("R-deep", map[string]any{"announcements": ndeep, "accepted": deepAcc})
 	c.Extra("deep_chains", map[string]any{"announcements": ndeep, "accepted": deepAcc})
 	c.Logf("R-deep: %d announcements with 40..130 hop records, %d accepted", ndeep, deepAcc)
+	// ---- T-concurrent: forged and genuine announcements handled by the victim's router workers at the same moment
+	concurrentStage(c, rng, &events)
 	rejectAt, inv, tres, err := c.TraceCheck("GossipAuth_Trace", "GossipAuth_Trace.cfg", events, vf.TLCOpts{Timeout: 20 * time.Minute})
 	if err != nil {
 		c.Fatal("T: %v", err)
@@ -956,7 +972,21 @@ func run(c *vf.Ctx) {
 		if acc, _ := ev["accepted"].(bool); !acc {
 			kind = "genuine-rejected-or-changed"
 		}
-		c.Violation(vf.Key(kind, ev["op"]), fmt.Sprintf("campaign event %v is not allowed by GossipAuth_Trace (line %d)", ev, rejectAt), ev, nil)
+		if stage, _ := ev["stage"].(string); stage == "concurrent" {
+			// name what TLC rejected (the predicate of GossipAuth_Trace, mirrored only for the text)
+			why := "accepted"
+			switch acc, _ := ev["accepted"].(bool); {
+			case !acc && ev["op"] == "none":
+				kind, why = "genuine-rejected", "not accepted although every record on it was signed by its router for this very announcement"
+			case !acc:
+				kind, why = "rejected-but-changed", "rejected, but the routing table or the forwarded frames changed"
+			case ev["op"] == "none":
+				kind, why = "wrong-route", fmt.Sprintf("accepted, but the installed route (%v via %v, records genuine: %v) is not what its records say", ev["path"], ev["nexthop"], ev["genuine"])
+			}
+			c.Violation(vf.Key(kind, "concurrent", ev["op"]), fmt.Sprintf("%v - %s (GossipAuth_Trace rejects line %d)", ev["detail"], why, rejectAt), ev, nil)
+		} else {
+			c.Violation(vf.Key(kind, ev["op"]), fmt.Sprintf("campaign event %v is not allowed by GossipAuth_Trace (line %d)", ev, rejectAt), ev, nil)
+		}
 	}
 	c.Logf("T: %d events validated", len(events))
 	_ = bytes.Equal
